@@ -3,6 +3,7 @@
 -/
 import PgmVerif.Proofs.VE
 import PgmVerif.Model.JTree
+import PgmVerif.Proofs.Elim
 namespace PgmVerif
 open Factor
 
@@ -78,6 +79,23 @@ theorem C14_bn_to_mn_measure (cpds factors : List Factor) (h : factors.Perm cpds
     jointDen factors a = jointDen cpds a := by
   unfold jointDen prodR
   exact (h.map _).prod_eq
+
+/-- **every elimination order triangulates**: in the graph `g` + the fill-in edges that the model of
+    `triangulate(order=…)` / the heuristics' deletion loop produces, the order itself is a perfect elimination
+    ordering — whenever `order = pre ++ v :: post`, any two vertices of `post` adjacent to `v` are adjacent to each
+    other.  (Existence of a perfect elimination ordering is equivalent to chordality — Fulkerson–Gross; the
+    executable `isChordal` validates each implementation output per case.) -/
+theorem C14_elimination_is_perfect (g : UG) (pre : List Var) (v : Var) (post : List Var)
+    (hnd : (pre ++ v :: post).Nodup) (hin : ∀ w ∈ pre ++ v :: post, w ∈ g.nodes)
+    (a b : Var) (ha : a ∈ post) (hb : b ∈ post) (hab : a ≠ b)
+    (hva : UG.AdjE (g.edges ++ g.eliminate (pre ++ v :: post)) v a)
+    (hvb : UG.AdjE (g.edges ++ g.eliminate (pre ++ v :: post)) v b) :
+    UG.AdjE (g.edges ++ g.eliminate (pre ++ v :: post)) a b := by
+  rw [UG.eliminate_eq] at *
+  exact UG.elimination_order_is_perfect pre g v post hnd hin a b ha hb hab hva hvb
+
+/-- non-vacuity: eliminating the 4-cycle 0-1-2-3 in the order 0,1,2,3 adds the chord (1,3) -/
+example : (UG.mk [0, 1, 2, 3] [(0, 1), (1, 2), (2, 3), (0, 3)]).eliminate [0, 1, 2, 3] = [(1, 3)] := by decide
 
 example : (DG.mk [0, 1, 2] [(0, 2), (1, 2)]).moralEdges = [(0, 2), (1, 2), (0, 1)] := by decide
 
